@@ -71,6 +71,8 @@ type Unit struct {
 	pendingSorts map[string]string
 	prop string
 	splits []splitInfo
+	globalsUsed map[string]bool
+	bvCallees map[string]bool
 }
 
 type splitInfo struct {
@@ -86,7 +88,7 @@ func (e *Engine) newUnit(fn *ssa.Function, ct *Contract, name string) *Unit {
 	bv := ct != nil && ct.Mode == "bv"
 	u := &Unit{eng: e, fn: fn, ct: ct, so: newSorts(bv), comps: map[string]string{}, compInit: map[string]string{},
 		kindCount: map[string]int{}, assumed: map[string]bool{}, inlined: map[string]bool{}, called: map[string]bool{},
-		safety: true, nowrap: true, declFuns: map[string]bool{}, name: name, bitsApps: map[string]bool{}, pendingSorts: map[string]string{}}
+		safety: true, nowrap: true, declFuns: map[string]bool{}, name: name, bitsApps: map[string]bool{}, pendingSorts: map[string]string{}, globalsUsed: map[string]bool{}, bvCallees: map[string]bool{}}
 	return u
 }
 
@@ -246,7 +248,12 @@ func (u *Unit) typeInv(v string, t types.Type, ctr string) string {
 		if ut.Kind() == types.String {
 			return app(">=", app("strlen", v), "0")
 		}
-	case *types.Pointer, *types.Map, *types.Chan:
+	case *types.Pointer:
+		if u.interior(ut.Elem()) {
+			return app("<=", v, ctr) // negative values encode pointers to slice elements
+		}
+		return and(app("<=", "0", v), app("<=", v, ctr))
+	case *types.Map, *types.Chan:
 		return and(app("<=", "0", v), app("<=", v, ctr))
 	case *types.Slice:
 		if so.bv {
@@ -290,6 +297,7 @@ func sortedKeys(m map[string]bool) []string {
 var propDeps = map[string][]string{
 	"C03": {"C02"},
 	"C12": {"C02", "C03"},
+	"C04b": {"C04"},
 }
 
 // active reports whether a clause with the given property tags takes part in
